@@ -137,6 +137,14 @@ class Template:
         self.x0, self.x1 = x0, x1  # two concrete points (dyadic rationals): the life of the object before it is serialized
 
 
+def _restricted(T):
+    """The template seen after ``output_grammar.restrict_to([first output])`` (moment step ``restrict``)."""
+    first = next(iter(T.outputs))
+    return Template(T.build, T.inputs, T.defaults, {first: T.outputs[first]}, lambda v: {first: T.value(v)[first]},
+                    (lambda v: {first: T.jac(v)[first]}) if T.jac is not None else None, lin=T.lin, x0=T.x0, x1=T.x1,
+                    piecewise=T.piecewise, omit_modes=T.omit_modes, diff0=T.diff0)
+
+
 def _A1():
     from gemseo.disciplines.analytic import AnalyticDiscipline
 
@@ -539,6 +547,9 @@ def _live(ctx, d, T, moment, ns, has_cache):
                 new = [1.25 + 0.5 * i for i in range(T.inputs[k])]
                 d.io.input_grammar.defaults[ns.get(k, k)] = np.array(new)
                 exp["defaults"][k] = new
+        elif step == "restrict":
+            # an output is dropped from the grammar of a discipline that may already have validated data (cached JSON schema)
+            d.io.output_grammar.restrict_to([first_out])
         elif step == "fd":
             d.set_jacobian_approximation(jac_approx_type=Discipline.ApproximationMode.FINITE_DIFFERENCES, jax_approx_step=FD_STEP)
             d.linearization_mode = Discipline.LinearizationMode.FINITE_DIFFERENCES
@@ -576,6 +587,8 @@ def _disc(ctx, cfg, tmp):
     T = TEMPLATES[cfg["obj"]]
     cache, moment, grammar = cfg.get("cache", "none"), cfg.get("moment", "fresh"), cfg.get("grammar", "json")
     _install(ctx, grammar)
+    if "restrict" in moment.split("+"):
+        T = _restricted(T)  # expectations for the outputs kept by the ``restrict`` step (build() is the unrestricted object)
 
     # ---- the original and its life ---------------------------------------------------------------
     O = T.build()
@@ -1487,6 +1500,12 @@ def configs(tier):
             add(obj, "json", "simple_tol", "exec")
             if obj in FULL or not quick:
                 add(obj, "simple", "simple_tol", "exec2")
+        if obj in ("analytic", "arrayfn"):
+            # an output removed from the grammar before / after the first validation (a JSON grammar caches its schema then)
+            for grammar in ("json", "simple"):
+                add(obj, grammar, "none", "restrict")
+                add(obj, grammar, "none", "exec+restrict")
+                add(obj, grammar, "none", "exec+restrict+exec")
         if obj == "analytic":
             # (a leaf discipline only: a namespace added to the grammar of a process is not forwarded to its disciplines; no
             # linearization: AnalyticDiscipline leaves the Jacobian block of a namespaced input at zero, serialized or not)
